@@ -367,7 +367,7 @@ Inductive Rooted (c : cell) : Z -> nat -> Prop :=
 
 (* directed paths of the graph with their weight sums *)
 Inductive gpath (g : graph) : Z -> Z -> Q -> Prop :=
-| gp_nil : forall n, In n (gnodes g) -> gpath g n n 0%Q
+| gp_nil : forall n, gpath g n n 0%Q
 | gp_step : forall a b t w d, In (a, b, w) (gedges g) -> gpath g b t d -> gpath g a t (w + d)%Q.
 
 (* =========================================================================================
